@@ -237,6 +237,41 @@ func vfRunTransfer(t *testing.T, spec *vfSpec, res *vfRes, o vfXferOpts) *vfXfer
 						res.violate("C07", "forward/not-repeated", "side %d: %v after the link healed the transfer stands still with the advanced peer ack point (%d) ahead of the cumulative ack point (%d): the FORWARD-TSN for abandoned data was lost and is not sent again", side, sim.net.now()-healT, sn.AdvPeer, sn.CumAck)
 					}
 				}
+				// a reader parked in ReadSCTP although its stream holds a deliverable message was not woken when the
+				// message became deliverable; after a FORWARD-TSN moved the cursor that is a message blocked by an
+				// abandoned one (C07), otherwise a message that is simply not delivered (C01)
+				for _, r := range w.allRuns() {
+					r.mu.Lock()
+					rs := r.rStream
+					r.mu.Unlock()
+					if rs == nil || (r.cfg.Reader != "fast" && r.cfg.Reader != "") {
+						continue
+					}
+					rs.lock.RLock()
+					ready := rs.reassemblyQueue.isReadable() && vfDeliverable(rs.reassemblyQueue) && rs.readErr == nil
+					rs.lock.RUnlock()
+					if ready {
+						prop := "C01"
+					scan:
+						for _, e := range sim.net.events() {
+							if e.Kind != vfWrDeliver {
+								continue
+							}
+							pk := e.Pkt
+							if pk == nil {
+								pk = vfDecode(e.Raw)
+							}
+							for i := range pk.Chunks {
+								if t := pk.Chunks[i].Type; t == vfCtForwardTSN || t == vfCtIForwardTSN {
+									prop = "C07"
+
+									break scan
+								}
+							}
+						}
+						res.violate(prop, "reader/not-woken", "dir %d sid %d: %v after the link healed the reader is still parked in ReadSCTP although its stream holds a complete deliverable message (read %d of %d written): it was not woken when the message became deliverable", r.cfg.Dir, r.cfg.SID, sim.net.now()-healT, r.nRead.Load(), r.nWrit.Load())
+					}
+				}
 				res.violate("C02", "stall/after-heal", "%v after the link healed (bound %v): writers returned=%v, association buffered=%d stream buffered=%d;%s; A: inflight=%d pending=%d cwnd=%d rwnd=%d state=%d; B: inflight=%d pending=%d cwnd=%d rwnd=%d state=%d",
 					sim.net.now()-healT, bound, writersOK, a, b, detail, sa.InflightN, sa.PendingN, sa.CWND, sa.RWND, sa.State, sb.InflightN, sb.PendingN, sb.CWND, sb.RWND, sb.State)
 			}
